@@ -127,11 +127,16 @@ OPTS_OFF = [([], False), ([], False), (["mockall = false"], False), (["mockall"]
             (["?Send"], False), (["export = false"], False)]
 OPTS_ON = [([], False), (["mock_api = SubjMock"], True), (["mock_api = SubjMock", "unimock = false"], False),
            (["unimock = false"], False), (["mockall = false"], False), (["mockall"], True), (["mockall = false", "mock_api = SubjMock"], True),
-           (["unimock = true"], False), (["mock_api = SubjMock", "?Send"], True)]
+           (["unimock = true"], False), (["mock_api = SubjMock", "?Send"], True),
+           # exported mock derivations are really expanded in this (non-test) build: the trait is implemented for the mock type too
+           (["mock_api = SubjMock", "export"], True, "unimock"), (["mock_api = SubjMock", "export", "mockall"], True, "unimock"),
+           (["mock_api = SubjMock", "export = true", "mockall = true", "unimock = true"], True, "unimock")]
 
 
 def build_case(cid, rng, feature):
-    opts, mockable = rng.choice(OPTS_ON if feature else OPTS_OFF)
+    choice = rng.choice(OPTS_ON if feature else OPTS_OFF)
+    opts, mockable = choice[:2]
+    mock_type = choice[2] if len(choice) > 2 else None
     opts = list(opts)
     rng.shuffle(opts)
     mode = rng.choice(["fn", "fn", "mod"])
@@ -147,7 +152,7 @@ def build_case(cid, rng, feature):
         declared, anyval, byval = [], False, False
         desc = [("no_deps", [], False)]
     elif mode == "fn":
-        bs = rng.sample(ALLB, rng.randint(0, 5))
+        bs = rng.sample([b_ for b_ in ALLB if not (mock_type and b_ == 5)], rng.randint(0, 5))   # (`Unimock` is not `Debug`)
         form = rng.choice(forms)
         L.append("#[::entrait::entrait(%s)] /*@inv*/" % ", ".join(["pub Subj"] + opts))
         L.append(make_fn(rng, "subj", bs, byval, form))
@@ -162,7 +167,7 @@ def build_case(cid, rng, feature):
         anyval = False
         desc = []
         for i in range(n):
-            bs = rng.sample(ALLB, rng.randint(0, 3))
+            bs = rng.sample([b_ for b_ in ALLB if not (mock_type and b_ == 5)], rng.randint(0, 3))
             form = rng.choice(forms)
             bv = rng.random() < 0.15
             anyval = anyval or bv
@@ -173,7 +178,7 @@ def build_case(cid, rng, feature):
     # a further type parameter of the fn(s) is lifted to the trait (`trait Subj<X>`): the impl is still one for every qualifying
     # type (or for Impl<T> when mockable), whatever the shape of the trait's generics
     targ = ""
-    if rng.random() < 0.15 and not any("no_deps" in d[0] for d in desc):
+    if rng.random() < 0.15 and not any("no_deps" in d[0] for d in desc) and not mock_type:
         for k_, l_ in enumerate(L):
             if "fn subj<" in l_ or "fn f0<" in l_:
                 L[k_] = l_.replace("fn subj<", "fn subj<X: ::core::marker::Send + 'static, ", 1).replace("fn f0<", "fn f0<X: ::core::marker::Send + 'static, ", 1)
@@ -195,6 +200,12 @@ def build_case(cid, rng, feature):
         D.append('    ::vrt::fact("bare:%s", ::vrt::implements!(%s: Subj%s));' % (name, name, targ))
         expect["impl:" + name] = ok
         expect["bare:" + name] = ok and not mockable
+    if mock_type:
+        # (the derived `impl Subj for Unimock` un-mocks by calling the fn on `Unimock`: rustc wants the fn's bounds of it)
+        L.append("implb!(::unimock::Unimock; %s);" % ", ".join("B%d b%d" % (k, k) for k in range(NB)))
+        L.append("impl<'q> BL<'q> for ::unimock::Unimock { fn bl(&self) -> &'q str { \"\" } }")
+        D.append('    ::vrt::fact("mock:unimock", ::vrt::implements!(::unimock::Unimock: Subj%s));' % targ)
+        expect["mock:unimock"] = True
     D.append("}")
     nt = len(set(declared)) >= 2 or (mode == "mod" and sum(1 for d in desc if d[1]) >= 2) or anyval
     meta = {"opts": opts, "mockable": mockable, "declared": declared, "byval": anyval, "expect": expect, "desc": desc,
@@ -307,7 +318,7 @@ def run(tier, seed):
         rng = core.rng_for(PROP, seed, label)
         cases = [build_case("c04%s_%04d" % (label, i), rng, feature) for i in range(n)]
         st = selftest.case("selftest_c04" + label)
-        ws = core.Workspace(PROP, label, unimock=feature, prelude=PRELUDE.replace("\n", " ") if False else "")
+        ws = core.Workspace(PROP, label, unimock=feature, deps=(("mockall", "unimock") if feature else ()), prelude=PRELUDE.replace("\n", " ") if False else "")
         for c in cases:
             c.src = PRELUDE + "\n" + c.src
             c.marks = {k: v + PRELUDE.count("\n") + 1 for k, v in c.marks.items()}
